@@ -213,7 +213,9 @@ class DictList(list):
                 _dict[the_id] = i
             else:
                 # undo the extend and raise an error
-                self = self[:current_length]
+                for added in islice(self, current_length, i):
+                    _dict.pop(added.id)
+                list.__delitem__(self, slice(current_length, None))
                 self._check(the_id)
                 # if the above succeeded, then the id must be present
                 # twice in the list being added
